@@ -34,40 +34,91 @@ pub enum Obs {
 /// Exact transfer encoding of a Value (serde_json's default float parser is not correctly
 /// rounded, so floats cannot travel as decimal text): every node is a tagged array.
 pub fn enc(v: &Value) -> Value {
+    let mut out = Vec::new();
+    enc_into(v, &mut out);
+    Value::Array(out)
+}
+
+/// a flat pre-order token list, so that the transfer adds no nesting of its own
+fn enc_into(v: &Value, out: &mut Vec<Value>) {
     match v {
-        Value::Null => json!(["n"]),
-        Value::Bool(b) => json!(["b", b]),
+        Value::Null => out.push(json!("n")),
+        Value::Bool(b) => out.push(json!(if *b { "t" } else { "f" })),
         Value::Number(n) => {
             if let Some(u) = n.as_u64() {
-                json!(["u", u.to_string()])
+                out.push(json!("u"));
+                out.push(json!(u.to_string()));
             } else if let Some(i) = n.as_i64() {
-                json!(["i", i.to_string()])
+                out.push(json!("i"));
+                out.push(json!(i.to_string()));
             } else {
-                json!(["f", n.as_f64().unwrap().to_bits().to_string()])
+                out.push(json!("F"));
+                out.push(json!(n.as_f64().unwrap().to_bits().to_string()));
             }
         }
-        Value::String(s) => json!(["s", s]),
-        Value::Array(a) => json!(["a", a.iter().map(enc).collect::<Vec<_>>()]),
-        Value::Object(m) => json!(["o", m.iter().map(|(k, x)| json!([k, enc(x)])).collect::<Vec<_>>()]),
+        Value::String(s) => {
+            out.push(json!("s"));
+            out.push(json!(s));
+        }
+        Value::Array(a) => {
+            out.push(json!("a"));
+            out.push(json!(a.len()));
+            for x in a {
+                enc_into(x, out);
+            }
+        }
+        Value::Object(m) => {
+            out.push(json!("o"));
+            out.push(json!(m.len()));
+            for (k, x) in m {
+                out.push(json!(k));
+                enc_into(x, out);
+            }
+        }
     }
 }
 
 pub fn dec(v: &Value) -> Value {
-    let tag = v[0].as_str().unwrap();
-    match tag {
+    let toks = v.as_array().expect("token list");
+    let mut pos = 0;
+    let r = dec_from(toks, &mut pos);
+    assert_eq!(pos, toks.len());
+    r
+}
+
+fn dec_from(t: &[Value], pos: &mut usize) -> Value {
+    let tag = t[*pos].as_str().unwrap().to_string();
+    *pos += 1;
+    let mut take_str = |pos: &mut usize| -> String {
+        let s = t[*pos].as_str().unwrap().to_string();
+        *pos += 1;
+        s
+    };
+    match tag.as_str() {
         "n" => Value::Null,
-        "b" => Value::Bool(v[1].as_bool().unwrap()),
-        "u" => json!(v[1].as_str().unwrap().parse::<u64>().unwrap()),
-        "i" => json!(v[1].as_str().unwrap().parse::<i64>().unwrap()),
-        "f" => Value::Number(
-            serde_json::Number::from_f64(f64::from_bits(v[1].as_str().unwrap().parse::<u64>().unwrap())).unwrap(),
-        ),
-        "s" => Value::String(v[1].as_str().unwrap().to_string()),
-        "a" => Value::Array(v[1].as_array().unwrap().iter().map(dec).collect()),
-        "o" => Value::Object(
-            v[1].as_array().unwrap().iter().map(|kv| (kv[0].as_str().unwrap().to_string(), dec(&kv[1]))).collect(),
-        ),
-        t => panic!("bad tag {}", t),
+        "t" => Value::Bool(true),
+        "f" => Value::Bool(false),
+        "u" => json!(take_str(pos).parse::<u64>().unwrap()),
+        "i" => json!(take_str(pos).parse::<i64>().unwrap()),
+        "F" => Value::Number(serde_json::Number::from_f64(f64::from_bits(take_str(pos).parse::<u64>().unwrap())).unwrap()),
+        "s" => Value::String(take_str(pos)),
+        "a" => {
+            let n = t[*pos].as_u64().unwrap() as usize;
+            *pos += 1;
+            Value::Array((0..n).map(|_| dec_from(t, pos)).collect())
+        }
+        "o" => {
+            let n = t[*pos].as_u64().unwrap() as usize;
+            *pos += 1;
+            let mut m = serde_json::Map::new();
+            for _ in 0..n {
+                let k = t[*pos].as_str().unwrap().to_string();
+                *pos += 1;
+                m.insert(k, dec_from(t, pos));
+            }
+            Value::Object(m)
+        }
+        other => panic!("bad tag {}", other),
     }
 }
 
